@@ -361,6 +361,14 @@ WORKBOOKS_OBS = {
         aliases={'D:D': 'D1:D2'}),
 }
 WORKBOOKS_OBS['cse_obs']['inputs']['E2'] = None
+# the used area of the sheet starts at B3: unbounded rows and columns still
+# start at row 1 / column A (blank cells above and left of the data)
+WORKBOOKS_OBS['offset_obs'] = dict(
+    inputs={'B3': 1, 'B4': 2, 'B1': None, 'B2': None, 'A3': None},
+    formulas={'C3': ('Plus', ['B3'], 1), 'C4': ('SumR', 'B3:B4')},
+    ranges={'B3:B4': [['B3'], ['B4']], 'B1:B4': [['B1'], ['B2'], ['B3'], ['B4']],
+            'A3:C3': [['A3', 'B3', 'C3']]},
+    aliases={'B:B': 'B1:B4', '3:3': 'A3:C3'})
 
 # Workbooks whose formulas are outside the formula kinds Engine.tla knows: the
 # kinds below only give the model the same dependency shape, the real formula
